@@ -800,6 +800,11 @@ func (fc *funcContext) translateExpr(expr ast.Expr) *expression {
 				}
 			}
 		}
+		if _, isArray := exprType.Underlying().(*types.Array); isArray {
+			// Dereferencing a nil pointer to an array must panic, also when only an
+			// element is read (the nil pointer's nilCheck getter throws).
+			return fc.formatExpr("(%1e.nilCheck, %1e)", e.X)
+		}
 		switch exprType.Underlying().(type) {
 		case *types.Struct, *types.Array:
 			return fc.translateExpr(e.X)
